@@ -233,6 +233,10 @@ var (
 		oBad("file:///somepath", "file", "prohibited"),
 		oBad("file://example.com", "file", "prohibited"),
 		oBad("https://www.résumé.com", "unicode", ""),
+		oBad("https://\u212Aelvin.example.com", "unicode", ""),
+		oBad("https://ex\u0131t.example.com", "unicode", ""),
+		oBad("htt\u017F://example.com", "unicode-scheme", ""),
+		oBad("https://example.com:80\u0668", "unicode-port", ""),
 		oBad("https://Example.com", "uppercase-host", ""),
 		oBad("https://EXAMPLE.COM", "uppercase-host", ""),
 		oBad("https://user@example.com", "userinfo", ""),
@@ -263,6 +267,10 @@ var (
 		oBad("http://[fe80::1%eth0]", "ip-zone", ""),
 		oBad("http://[::ffff:1.2.3.4]", "ip-4in6", ""),
 		oBad("http://[::ffff:7f00:1]", "ip-4in6", ""),
+		oBad("http://[127.0.0.1]", "ip-bracketed-v4", ""),
+		oBad("http://[127.0.0.1]:8080", "ip-bracketed-v4", ""),
+		oBad("http://[10.0.0.1]", "ip-bracketed-v4", ""),
+		oBad("connector://[255.0.0.0]:1", "ip-bracketed-v4", ""),
 		oBad("http://[::1", "ip-bracket", ""),
 		oBad("http://::1", "ip-bracket", ""),
 		oBad("https://*example.com", "wildcard-misplaced", ""),
@@ -308,6 +316,7 @@ var (
 		{"OPTIONS-LIST", mValid, "OPTIONS-LIST"}, {"optionsX", mValid, "optionsX"}, {"PUTT", mValid, "PUTT"}, {"putx", mValid, "putx"}, {"DELETED", mValid, "DELETED"},
 		{"GETX", mValid, "GETX"}, {"postal", mValid, "postal"}, {"HEADER", mValid, "HEADER"}, {"CONNECTED", mValid, "CONNECTED"}, {"TRACER", mValid, "TRACER"},
 		{"PU", mValid, "PU"}, {"M!#$%&'*+.^_`|~", mValid, "M!#$%&'*+.^_`|~"},
+		{"LONG64" + strings.Repeat("M", 58), mValid, "LONG64" + strings.Repeat("M", 58)}, {"long130" + strings.Repeat("m", 123), mValid, "long130" + strings.Repeat("m", 123)},
 	}
 	safelistedMethodAtoms = []MAtom{
 		{"GET", mSafelisted, "GET"}, {"HEAD", mSafelisted, "HEAD"}, {"POST", mSafelisted, "POST"}, {"get", mSafelisted, "GET"}, {"Post", mSafelisted, "POST"}, {"head", mSafelisted, "HEAD"},
@@ -318,6 +327,7 @@ var (
 	invalidMethodAtoms = []MAtom{
 		{"", mInvalid, ""}, {"PU T", mInvalid, ""}, {"PUT,PATCH", mInvalid, ""}, {"résumé", mInvalid, ""}, {"PUT\x00", mInvalid, ""}, {"(PUT)", mInvalid, ""},
 		{"PUT\n", mInvalid, ""}, {" PUT", mInvalid, ""}, {"PUT/1", mInvalid, ""}, {"\"PUT\"", mInvalid, ""},
+		{"\u212AILL", mInvalid, ""}, {"de\u017Fcribe", mInvalid, ""}, {"OPT\u0130ONS", mInvalid, ""}, {"PUT\u4E2D", mInvalid, ""},
 	}
 	mStarAtom = MAtom{"*", mStar, ""}
 )
@@ -330,7 +340,10 @@ func hk(raw string, k HKind) HAtom {
 var (
 	validReqHdrAtoms = []HAtom{hv("Content-Type"), hv("X-Api-Key"), hv("x-requested-with"), hv("X-LISTED-1"), hv("x-listed-2"),
 		hv("Accept"), hv("If-None-Match"), hv("Foo"), hv("x-a"), hv("x-ab"), hv("X"), hv("Access-Control-Foo"),
-		hv("X_Request_Id"), hv("x_trace_id"), hv("X^Caret"), hv("X.Dot"), hv("X!#$%&'*+.^_`|~Z"), hv("Accept-Language"), hv("x-9")}
+		hv("X_Request_Id"), hv("x_trace_id"), hv("X^Caret"), hv("X.Dot"), hv("X!#$%&'*+.^_`|~Z"), hv("Accept-Language"), hv("x-9"),
+		// long names (there is no documented length limit): around 64, 128 and 256 bytes
+		hv("x-len63-" + strings.Repeat("a", 55)), hv("X-Len64-" + strings.Repeat("b", 56)), hv("x-len65-" + strings.Repeat("c", 57)),
+		hv("x-len128-" + strings.Repeat("d", 119)), hv("X-LEN200-" + strings.Repeat("E", 191)), hv("x-len257-" + strings.Repeat("f", 248))}
 	authReqHdrAtoms      = []HAtom{hk("Authorization", hAuth), hk("authorization", hAuth), hk("AUTHORIZATION", hAuth), hk("aUtHoRiZaTiOn", hAuth)}
 	forbiddenReqHdrAtoms = []HAtom{hk("Cookie", hForbidden), hk("Host", hForbidden), hk("origin", hForbidden), hk("Sec-Fetch-Mode", hForbidden),
 		hk("Proxy-Authorization", hForbidden), hk("sec-x", hForbidden), hk("PROXY-foo", hForbidden), hk("Access-Control-Request-Method", hForbidden),
@@ -342,11 +355,16 @@ var (
 		hk("Access-Control-Allow-Headers", hProhibited), hk("ACCESS-CONTROL-ALLOW-METHODS", hProhibited), hk("Access-Control-Allow-Private-Network", hProhibited),
 		hk("Access-Control-Expose-Headers", hProhibited), hk("Access-Control-Max-Age", hProhibited)}
 	invalidHdrAtoms = []HAtom{hk("", hInvalid), hk("X Foo", hInvalid), hk("X-Foo:", hInvalid), hk("résumé", hInvalid), hk("a,b", hInvalid),
-		hk("X-Foo\x00", hInvalid), hk(" X-Foo", hInvalid), hk("X-Foo ", hInvalid), hk("(x)", hInvalid), hk("x/y", hInvalid), hk("X-Foo\r\n", hInvalid)}
+		hk("X-Foo\x00", hInvalid), hk(" X-Foo", hInvalid), hk("X-Foo ", hInvalid), hk("(x)", hInvalid), hk("x/y", hInvalid), hk("X-Foo\r\n", hInvalid),
+		// non-ASCII letters that Unicode case mapping / folding turns into ASCII letters (KELVIN SIGN -> k, I WITH DOT ABOVE -> i,
+		// LONG S -> S, DOTLESS I -> I), full-width forms, and runes whose low byte is a token byte (lesson of seeded changes
+		// C04-jE and C04-jG: byte-truncating and case-mapping validators)
+		hk("X-Api-\u212Aey", hInvalid), hk("\u212A", hInvalid), hk("x-\u0130d", hInvalid), hk("X-Request-\u0131d", hInvalid), hk("\u017Fet-cookie", hInvalid),
+		hk("x-\uFF21bc", hInvalid), hk("X-Z\u0142oty", hInvalid), hk("x-\u4E2D", hInvalid), hk("Content-Type\u212A", hInvalid), hk("authorizat\u0131on", hInvalid)}
 	hStarAtom = HAtom{"*", hStar, "*"}
 
 	validRespHdrAtoms      = []HAtom{hv("X-Response-Time"), hv("ETag"), hv("location"), hv("X-Exposed-1"), hv("x-exposed-2"), hv("Link"), hv("X-A"), hv("x-b"),
-		hv("X_Rate_Limit"), hv("X^Up"), hv("X.Y~Z")}
+		hv("X_Rate_Limit"), hv("X^Up"), hv("X.Y~Z"), hv("x-exp-len64-" + strings.Repeat("g", 52)), hv("X-Exp-Len130-" + strings.Repeat("h", 117))}
 	safelistedRespHdrAtoms = []HAtom{hk("Cache-Control", hSafelisted), hk("content-language", hSafelisted), hk("Content-Length", hSafelisted),
 		hk("CONTENT-TYPE", hSafelisted), hk("Expires", hSafelisted), hk("Last-Modified", hSafelisted), hk("pragma", hSafelisted)}
 	forbiddenRespHdrAtoms  = []HAtom{hk("Set-Cookie", hForbidden), hk("set-cookie2", hForbidden), hk("SET-COOKIE", hForbidden)}
